@@ -121,6 +121,9 @@ fn encode(c: &Case, yt: usize, pend: &[u8]) -> EncOut {
 
 /// Checks the shape of an encoder transcript and returns the concatenated DATA bytes.
 fn check_enc_shape(c: &Case, out: &EncOut, tag: &str) -> Result<Vec<u8>, Failure> {
+    if let Some(v) = out.contract_violation() {
+        bail!("C01/encoder-body-contract", "{tag}: {v}");
+    }
     let mut seen_end = false;
     let mut trailers = 0;
     for (i, ev) in out.events.iter().enumerate() {
